@@ -83,6 +83,17 @@ PROPS = {
     },
 }
 
+def _merge():
+    import importlib
+    for name in ("props_meta2", "props_meta3"):
+        try:
+            m = importlib.import_module(name)
+        except ModuleNotFoundError:
+            continue
+        PROPS.update(m.PROPS)
+        MANIFEST_TEXT.update(m.MANIFEST_TEXT)
+
+
 MANIFEST_TEXT = {
     "C01": {
         "text": ("Translation validation per program on the explored inputs: every generated program is compiled by the "
@@ -129,3 +140,6 @@ MANIFEST_TEXT = {
         "technique": "round-trip and differential monitors over generated values and maps",
     },
 }
+
+
+_merge()
